@@ -146,7 +146,11 @@ def get_cardinality_formula(relation: Relation) -> str:
                 and_ctc = f'{positives_and_ctc}{negatives_and_ctc}'
             or_ctc.append(and_ctc)
     formula_or_ctc = f'{f" {PLWriter.LogicConnective.OR} ".join(or_ctc)}'
-    return f'{parent} {PLWriter.LogicConnective.EQUIVALENCE} {formula_or_ctc}'
+    or_children = f" {PLWriter.LogicConnective.OR} ".join(child.name for child in relation.children)
+    # Children imply the parent, and the parent implies one of the allowed combinations
+    return f'(({or_children}) {PLWriter.LogicConnective.IMPLIES} {parent}) ' \
+           f'{PLWriter.LogicConnective.AND} ' \
+           f'({parent} {PLWriter.LogicConnective.IMPLIES} ({formula_or_ctc}))'
 
 
 def get_constraint_formula(ctc: Constraint) -> str:
